@@ -352,17 +352,22 @@ func BuildCte(query *Query, expr *sqlparser.With) error {
 	query.data = data
 	for _, cte := range expr.CTEs {
 		copy := *cte
-		data[copy.ID.String()] = CteEvaluation(func() (any, error) {
+		var evaluate CteEvaluation
+		evaluate = func() (any, error) {
 			// while a CTE is being evaluated a reference to it is a cycle
 			data[copy.ID.String()] = CteEvaluation(func() (any, error) {
 				return nil, EXPECTATION_FAILED.Extend(fmt.Sprintf("recursive reference to the common table expression %s", copy.ID.String()))
 			})
+			// an evaluation that fails leaves the CTE unevaluated, not marked as a
+			// cycle: the next execution evaluates it again
 			query, err := Prepare(data, copy.Subquery, query.options)
 			if err != nil {
+				data[copy.ID.String()] = evaluate
 				return nil, err
 			}
 			rs, err := query.execAndPostProcess()
 			if err != nil {
+				data[copy.ID.String()] = evaluate
 				return nil, err
 			}
 			// the evaluated rows stay behind a CTE entry: the registry is also the
@@ -371,7 +376,8 @@ func BuildCte(query *Query, expr *sqlparser.With) error {
 				return rs, nil
 			})
 			return rs, nil
-		})
+		}
+		data[copy.ID.String()] = evaluate
 	}
 	return nil
 }
